@@ -39,7 +39,7 @@ C19 mftk <pre:0|1> <alloc:0|1> [x…] [y…] [u…] [v…] [w…] [wout…] <cal
       phase sums), reused over the script of unit impulses at flat index j; answer `ok <r0> | <r1> | …`, r = `;`-separated samples,
       each a `+`-separated list of terms `c:t:r` (= c·exp(2πi·t)·exp(i·r))
 C19 dispatch                                the regenerated dispatch table `Gen/FieldDispatch.lean` against the wrapping policies:
-      answer `ok <entries> <attributes> <entries not handled as predicted|-> <attributes missing on the wrapper|-> <old>/<new> per entry`
+      answer `ok <entries> <attributes> <entries not handled as predicted|-> <attributes missing on the wrapper|-> <elementwise entries> <of those keeping the grid> <old>/<new> per entry`
 C19 ref <good|badslice|badarray> <op>*      the reference model `Model/FieldRef.lean` (buffers, windows, grid objects), see Driver/C19Ref.lean
 ```
 Answer of `run`: `ok O <obs>* | N <obs>* | DO <obs>* | DN <obs>* | A <0|1> <i|->` — the per-statement
